@@ -104,7 +104,7 @@ func runTrace(t *testing.T, it conformItem, loop bool) (log []string, key string
 // conformable: restarts replace the session object and are not replayed in loop mode.
 func conformable(names []string) bool {
 	for _, n := range names {
-		if strings.Contains(n, "restart") || strings.Contains(n, "reset-time") || strings.Contains(n, "clock-tick") {
+		if strings.Contains(n, "restart") || strings.Contains(n, "reset-time") || strings.Contains(n, "clock-tick") || strings.Contains(n, "write") {
 			return false
 		}
 	}
